@@ -200,8 +200,8 @@ pub fn check_c03(c: &EvoCase, acc: &mut Acc, record: bool) -> Verdict {
 }
 
 pub fn run_c03(cx: &Cx) -> PropResult {
-    let per_shard = cx.n(6_000, 300_000);
-    let per_compiled = cx.n(1_500, 40_000);
+    let per_shard = cx.n(30_000, 1_000_000);
+    let per_compiled = cx.n(6_000, 150_000);
     let acc = parallel(cx, &|shard, acc| {
         // mostly short histories (every pair is then likely to be hit), some long ones
         // E2: every history of the compiled batch, all version pairs, through the derive macro's code
